@@ -128,9 +128,18 @@ def _probe(imports: list[list[str]], hashseed: int, fault: dict[str, Any] | None
     rest = list(dict.fromkeys(rest))
     req = {"imports": imports, "rest": rest, "smoke": smoke_text(), "fault": fault,
            "pkg_prefix": os.path.join(env.PKG_DIR, "")}
-    p = subprocess.run([env.PYTHON, "-m", "detsim.importprobe"], input=json.dumps(req),
+    import sys
+
+    # the probe interpreters run in the configuration of this launcher's slice (python -O / -OO,
+    # C locale): an import history must succeed in every one of them
+    flags = ["-O"] * min(2, int(sys.flags.optimize))
+    penv = env.fresh_interpreter_env(hashseed)
+    from detsim.runner import SLICES
+
+    penv.update((SLICES.get(os.environ.get("VERIF_SLICE_NAME") or "") or {}).get("env", {}))
+    p = subprocess.run([env.PYTHON] + flags + ["-m", "detsim.importprobe"], input=json.dumps(req),
                        capture_output=True, text=True, timeout=150,
-                       env=env.fresh_interpreter_env(hashseed), cwd=env.VERIF_ROOT)
+                       env=penv, cwd=env.VERIF_ROOT, encoding="utf-8")
     if p.returncode != 0 or not p.stdout.strip():
         return {"ok": False, "failed": {"module": "?", "form": "?", "phase": "interpreter",
                                         "type": "InterpreterExit", "step": -1,
